@@ -5,7 +5,7 @@
    render_lines ms      : the stack written count times         tree_via_lines  : ParseIndividualLines + Tree.Insert
    trie_body ms         : Serialize of the agent's trie         tree_via_trie   : Deserialize, Iterate + Tree.Insert
    entry_ok (k, v)      : k <> "", k has no '\n', k does not end in '\r', 1 <= v < 2^63, the text line is
-                          shorter than 64 KiB  (ProfileProofs.entry_ok)
+                          shorter than 64 KiB  (C06ProfileProofs.entry_ok)
    tt_fitsb 1 1 t       : name lengths, child counts and values of the trie are below 2^64
 
    The fourth format (the no-dict tree codec, tree.SerializeNoDict / DeserializeNoDict) is modelled in another
@@ -13,7 +13,7 @@
    (the stored tree is compared in Coq with profile_of ms on every case), not by a theorem. *)
 From Coq Require Import Ascii.
 From Pyro Require Import Model.Base Model.Tree Model.Varint Model.TTrie Model.TextFormats Model.Ingest.
-From Pyro Require Import Proofs.TTrieProofs Proofs.TextFormatsProofs Proofs.ProfileProofs.
+From Pyro Require Import Proofs.TTrieProofs Proofs.TextFormatsProofs Proofs.C06ProfileProofs.
 
 Local Open Scope N_scope.
 
